@@ -138,6 +138,9 @@ MUTATIONS = [
     (r'<variable name="(v\d+_)1"', r'<variable name="\g<1>0"'), (r' prefix="milli"', r' prefix="wrong"'),
     (r'<test_value', r'<test_value bad="1"'), (r'<reset ', r'<reset bogus="2" '), (r'<encapsulation', r'<encapsulation nope="1"'),
     (r'<component_ref component="[a-z0-9]+"', r'<component_ref component="ghost"'), (r'<map_variables ', r'<map_variables q="1" '),
+    (r'<unit ', r'<unit multiplier="abc" '), (r'<cn ', r'<cn base="16" '), (r' component_2="[a-z0-9_]+"', r' component_2="c0"'),
+    (r'<eq/>', r'<plus/>'), (r' initial_value="[0-9.]+"', r' initial_value="v0_0"'),
+    (r'<bvar>(<ci>[a-z0-9_]+</ci>)</bvar>', r'<bvar>\1<degree><cn cellml:units="dimensionless">2</cn></degree></bvar>'), (r'<cn ', r'<cn type="e-notation" '), (r' order="\d+"', r''), (r'<variable name="(v\d+_\d)"', r'<variable name="\1" name2="x"'),
 ]
 
 
@@ -191,6 +194,153 @@ def garbage(rng, valid):
     if k == 7:
         return valid.replace("</model>", "</modle>")
     return bytes(rng.randrange(256) for _ in range(rng.randrange(1, 60))).decode("latin-1")
+
+
+# ----------------------------------------------------------------------------------------------- injection matrix
+
+CMETA = "http://www.cellml.org/metadata/1.0#"
+NSV = {"2.0": NS2, "1.0": NS10, "1.1": NS11}
+KINDS = ["model", "import", "import_units", "import_component", "units", "unit", "component", "variable", "reset", "test_value",
+         "reset_value", "encapsulation", "component_ref", "connection", "map_components", "map_variables", "group",
+         "relationship_ref", "math"]
+INJECTIONS = ["stray_attr", "stray_attr_ns", "stray_child", "stray_child_ns", "stray_text", "missing_required", "duplicate"]
+REQUIRED = {"model": ["name"], "import": ["xlink:href"], "import_units": ["units_ref", "name"], "import_component": ["component_ref", "name"],
+            "units": ["name"], "unit": ["units"], "component": ["name"], "variable": ["name", "units"],
+            "reset": ["variable", "test_variable", "order"], "component_ref": ["component"], "connection": ["component_1", "component_2"],
+            "map_components": ["component_1", "component_2"], "map_variables": ["variable_1", "variable_2"], "relationship_ref": ["relationship"]}
+
+
+def N(tag, attrs=None, kids=None, kind=None, text=None):
+    return {"tag": tag, "attrs": list(attrs or []), "kids": list(kids or []), "kind": kind, "text": text}
+
+
+def base_tree(version, want):
+    """a document of the given CellML version that contains every element kind legal in it, plus the element of kind
+    [want] when that kind does not belong to the version (so that every kind can be hit in every version)"""
+    ns = NSV[version]
+    v2 = version == "2.0"
+
+    def math(kid):
+        return N("math", [("xmlns", MATHNS)], [kid], "math")
+
+    def cn(val):
+        return N("cn", [("cellml:units", "second")], [], None, val)
+    kids = []
+    if version != "1.0" or want in ("import", "import_units", "import_component"):
+        kids.append(N("import", [("xlink:href", "lib_that_is_not_there.cellml")],
+                      [N("units", [("units_ref", "U"), ("name", "iu")], [], "import_units"),
+                       N("component", [("component_ref", "C"), ("name", "ic")], [], "import_component")], "import"))
+    kids.append(N("units", [("name", "u1")], [N("unit", [("units", "metre"), ("prefix", "milli")], [], "unit")], "units"))
+    iface = (lambda d: ("interface", "public")) if v2 else (lambda d: ("public_interface", d))
+    c1 = [N("variable", [("name", "a"), ("units", "u1"), iface("out"), ("initial_value", "1")], [], "variable"),
+          N("variable", [("name", "b"), ("units", "second"), iface("out")], [], None)]
+    if v2 or want in ("reset", "test_value", "reset_value"):
+        c1.append(N("reset", [("variable", "a"), ("test_variable", "b"), ("order", "1")],
+                    [N("test_value", [], [math(cn("1"))], "test_value"), N("reset_value", [], [math(cn("2"))], "reset_value")], "reset"))
+    c1.append(math(N("apply", [], [N("eq"), N("ci", text="b"), cn("3")])))
+    kids.append(N("component", [("name", "c1")], c1, "component"))
+    kids.append(N("component", [("name", "c2")], [N("variable", [("name", "a2"), ("units", "u1"), iface("in")], [], None)], None))
+    cref = N("component_ref", [("component", "c1")], [N("component_ref", [("component", "c2")], [], None)], "component_ref")
+    if v2 or want == "encapsulation":
+        kids.append(N("encapsulation", [], [cref], "encapsulation"))
+        cref = N("component_ref", [("component", "c1")], [N("component_ref", [("component", "c2")], [], None)], None)
+    if not v2 or want in ("group", "relationship_ref"):
+        kids.append(N("group", [], [N("relationship_ref", [("relationship", "encapsulation")], [], "relationship_ref"), cref], "group"))
+    ck = []
+    if not v2 or want == "map_components":
+        ck.append(N("map_components", [("component_1", "c1"), ("component_2", "c2")], [], "map_components"))
+    ck.append(N("map_variables", [("variable_1", "a"), ("variable_2", "a2")], [], "map_variables"))
+    kids.append(N("connection", [("component_1", "c1"), ("component_2", "c2")] if v2 else [], ck, "connection"))
+    return N("model", [("xmlns", ns), ("xmlns:cellml", ns), ("xmlns:xlink", XLINK), ("xmlns:foo", "http://example.org/foo"),
+                       ("name", "m")], kids, "model")
+
+
+def find_kind(node, kind, parent=None):
+    if node["kind"] == kind:
+        return node, parent
+    for k in node["kids"]:
+        r = find_kind(k, kind, node)
+        if r:
+            return r
+    return None
+
+
+def xml_of(node):
+    def esc(v):
+        return v.replace("&", "&amp;").replace("<", "&lt;").replace('"', "&quot;")
+    a = "".join(' %s="%s"' % (k, esc(v)) for k, v in node["attrs"])
+    inner = (esc(node["text"]) if node["text"] else "") + "".join(xml_of(k) for k in node["kids"])
+    return "<%s%s>%s</%s>" % (node["tag"], a, inner, node["tag"]) if inner else "<%s%s/>" % (node["tag"], a)
+
+
+def inject(version, kind, injection, variant=0):
+    """-> document text, or None when the combination does not exist (e.g. no second required attribute)"""
+    import copy
+    root = base_tree(version, kind)
+    hit = find_kind(root, kind)
+    if not hit:
+        return None
+    node, parent = hit
+    if injection == "stray_attr":
+        node["attrs"].append(("bogus", "1"))
+    elif injection == "stray_attr_ns":
+        node["attrs"].append(("foo:bogus", "1"))
+    elif injection == "stray_child":
+        node["kids"].insert(0, N("stray"))
+    elif injection == "stray_child_ns":
+        node["kids"].insert(0, N("foo:stray"))
+    elif injection == "stray_text":
+        node["text"] = "stray text"
+    elif injection == "missing_required":
+        req = REQUIRED.get(kind, [])
+        if kind == "connection" and version != "2.0":
+            req = []
+        if variant < len(req):
+            node["attrs"] = [(k, v) for k, v in node["attrs"] if k != req[variant]]
+        elif variant == len(req) and node["kids"]:
+            node["kids"] = []          # required children missing
+        else:
+            return None
+    elif injection == "duplicate":
+        if parent is None:
+            node["kids"].append(copy.deepcopy(node["kids"][1]))   # model: duplicate a child (two units with one name)
+        else:
+            parent["kids"].insert(parent["kids"].index(node) + 1, copy.deepcopy(node))
+    return '<?xml version="1.0" encoding="UTF-8"?>\n' + xml_of(root) + "\n"
+
+
+def injection_matrix():
+    out = []
+    for version in ("2.0", "1.0", "1.1"):
+        for kind in KINDS:
+            for inj in INJECTIONS:
+                for variant in range(4 if inj == "missing_required" else 1):
+                    d = inject(version, kind, inj, variant)
+                    if d is not None:
+                        out.append(("matrix:%s:%s:%s%s" % (version, kind, inj, (":%d" % variant) if inj == "missing_required" else ""), d))
+    return out
+
+
+INPUT_CLASSES = ["valid", "invalid", "garbage", "empty", "componentless", "unitsonly", "null"]
+
+
+def input_of(rng, cls):
+    """one input of the given class for the instance re-use histories (None = null model / empty string)"""
+    if cls == "null":
+        return None
+    if cls == "empty":
+        return '<?xml version="1.0"?><model xmlns="%s"/>' % NS2
+    if cls == "componentless":
+        return '<?xml version="1.0"?><model xmlns="%s" name="nocomp" id="mid"/>' % NS2
+    if cls == "unitsonly":
+        return ('<?xml version="1.0"?><model xmlns="%s" name="uo"><units name="ua"><unit units="metre" prefix="kilo"/></units>'
+                '<units name="ub"><unit units="ua" exponent="2"/><unit units="second" exponent="-1"/></units></model>' % NS2)
+    base = gen_model(rng)
+    if cls == "valid":
+        return base
+    if cls == "invalid":
+        return mutate(rng, base, rng.choice([1, 2, 3]))
+    return garbage(rng, base)
 
 
 # ----------------------------------------------------------------------------------------------- import graphs
@@ -288,7 +438,7 @@ def gen_import_case(rng, root, idx):
     main = '<?xml version="1.0" encoding="UTF-8"?>\n<model xmlns="%s" xmlns:xlink="%s" name="main">%s%s</model>\n' % (
         NS2, XLINK, "".join(imports), local)
     open(os.path.join(d, "main.cellml"), "w").write(main)
-    script = rng.choice(["r", "rf", "rf", "rrf", "rr", "nrf", "urf", "rcrf", "ruf", "rfn"])
+    script = rng.choice(["r", "rf", "rvf", "rrf", "rv", "nrf", "urf", "rcrf", "ruf", "rfn"])
     desc["script"] = script
     return d, "main.cellml", strict, script, desc
 
@@ -621,7 +771,7 @@ def run(ctx):
     # ---------------------------------------------------------------- 4. services on documents
     ev = Eval(ctx, drv)
     docs = []
-    ndoc = 500 if quick else 5000
+    ndoc = 260 if quick else 5000
     for i in range(ndoc):
         base = gen_model(rng)
         k = rng.random()
@@ -631,6 +781,11 @@ def run(ctx):
             docs.append(("invalid", mutate(rng, base, rng.choice([1, 1, 2, 3, 5]))))
         else:
             docs.append(("garbage", garbage(rng, base)))
+    matrix = injection_matrix()
+    docs += matrix
+    if not quick:   # matrix documents with one or two further random mutations on top
+        for name, d in matrix:
+            docs.append(("matrixmut:" + name.split(":", 1)[1], mutate(rng, d, rng.choice([1, 2]))))
     res_dir = os.path.join(vf.REPO, "tests", "resources")
     res_files = []
     for dpath, ds, fs in os.walk(res_dir):
@@ -652,12 +807,20 @@ def run(ctx):
     other_crashes = []
     for kind, d in docs:
         hx = d.encode("utf-8", "replace").hex()
-        for steps in ("PQVRN", "PA", "QA"):
+        # matrix documents: one line (the ~70 annotator calls are made on the other document classes)
+        for steps in (("PQVRAEM",) if kind.startswith("matrix") else ("PQVRN", "PA", "QAEM")):
             if steps != "PQVRN" and (kind == "garbage"):
                 continue
             slines.append("S %s %s" % (steps, hx))
             smeta.append((kind, steps))
             docs_by_line.append(d)
+    # cyclic units that nothing uses: only the parser and the validator are asked (other entry points recurse without end
+    # on such models - defect class of C01 / C07)
+    cyc = ('<?xml version="1.0"?><model xmlns="%s" name="cyc"><units name="ua"><unit units="ub"/></units><units name="ub"><unit units="uc"/>'
+           '</units><units name="uc"><unit units="ua" exponent="2"/></units><component name="c"><variable name="v" units="second"/></component></model>' % NS2)
+    slines.append("S PV " + cyc.encode().hex())
+    smeta.append(("targeted_cyclic_units", "PV"))
+    docs_by_line.append("")
     # the dedicated crash probe (Annotator::item(id, 1) with a single item of that id)
     probe_doc = ('<?xml version="1.0"?><model xmlns="%s" name="m" id="only"><component name="c" id="cid"/></model>' % NS2)
     slines.append("S PX " + probe_doc.encode().hex())
@@ -681,7 +844,7 @@ def run(ctx):
         len(slines), len(docs), kinds, ev.records, ev.crashed))
 
     # ---------------------------------------------------------------- 5. importer scenarios
-    nimp = 500 if quick else 4000
+    nimp = 400 if quick else 4000
     root = os.path.join(wd, "imports")
     os.makedirs(root, exist_ok=True)
     ilines = []
@@ -708,6 +871,36 @@ def run(ctx):
     ctx.cov["evaluations"] += len(ilines)
     ctx.log("imp: %d scenarios (%d generated graphs, libs %s) -> %d service calls, %d with removeError" % (
         len(ilines), nimp, libkinds, ev.records - rec_before, ev.removals - rem_before))
+
+    # ---------------------------------------------------------------- 5b. ONE service instance over a sequence of inputs
+    hlines = []
+    hmeta = []
+
+    def tok(x):
+        return "NULL" if x is None else (x.encode("utf-8", "replace").hex() or "NULL")
+    services = [("P", 1), ("P", 0), ("V", 0), ("A", 0), ("R", 0), ("N", 0), ("I", 1), ("I", 0)]
+    for svc, strict in services:
+        seqs = [(a, b) for a in INPUT_CLASSES for b in INPUT_CLASSES]           # every ordered pair of input classes
+        for _ in range(30 if quick else 600):
+            seqs.append(tuple(rng.choice(INPUT_CLASSES) for _ in range(rng.choice([3, 3, 4]))))
+        for seq in seqs:
+            hlines.append("Y %s %d %s" % (svc, strict, " ".join(tok(input_of(rng, c)) for c in seq)))
+            hmeta.append({"service": svc, "strict": strict, "inputs": list(seq)})
+    # one importer over several of the generated import graphs
+    for _ in range(60 if quick else 1200):
+        picks = [rng.randrange(nimp) for _ in range(rng.choice([2, 3, 4]))]
+        hlines.append("Z %d %s" % (rng.randrange(2), " ".join("%s main.cellml" % os.path.join(root, "g%d" % k) for k in picks)))
+        hmeta.append({"service": "importer", "graphs": picks})
+    rec_before = ev.records
+    out = shard_run(drv, "hist", hlines, wd, "hist")
+    seqhist = {}
+    for i, l in enumerate(hlines):
+        key = hmeta[i]["service"] if isinstance(hmeta[i]["service"], str) else "?"
+        seqhist[key] = seqhist.get(key, 0) + 1
+        ev.line({"line": l, "history": hmeta[i]}, out[i], "hist")
+    ctx.cov["evaluations"] += len(hlines)
+    ctx.log("hist: %d histories re-using one service instance (%s; all 49 ordered pairs of %s per service + longer) -> %d service calls" % (
+        len(hlines), seqhist, "/".join(INPUT_CLASSES), ev.records - rec_before))
 
     # ---------------------------------------------------------------- 6. replay every recorded trace through the model
     trs = sorted(ev.traces)
@@ -740,9 +933,26 @@ def run(ctx):
                           {"mode": "trace", "trace": t, "impl_state": state, "model": m, "case": ex["case"], "record": ex["record"], "what": bad})
     ctx.log("traces: %d distinct operation histories recorded from the services replayed through the model; removals not-last: %d" % (len(trs), notlast))
 
+    # ---------------------------------------------------------------- rule coverage
+    sites_txt = open(os.path.join(vf.COQ, "gen", "IssueSites.v")).read()
+    mm = re.search(r"Definition rule_mentions : list \(string \* nat \* nat \* bool\) := \[(.*?)\n\]\.", sites_txt, flags=re.S)
+    used = set(int(x[2]) for x in re.findall(r'\("([^"]*)", (\d+), (\d+), (true|false)\)', mm.group(1)))
+    used.add(0)   # UNDEFINED: the sites that set no rule
+    observed = ev.rules_seen & used
+    unobserved = sorted(used - ev.rules_seen)
+    rule_cov = {"rules_used_at_some_site": len(used), "observed_on_real_issues": len(observed),
+                "unobserved": [names[r] for r in unobserved],
+                "observed_but_not_in_site_table": [names[r] if r < count else str(r) for r in sorted(ev.rules_seen - used)]}
+    ctx.cov["rule_coverage"] = rule_cov
+    ctx.log("rule coverage: %d of %d rules used at some site were observed on real issues; unobserved: %s" % (
+        len(observed), len(used), ", ".join(rule_cov["unobserved"]) or "-"))
+    if rule_cov["observed_but_not_in_site_table"]:
+        ctx.violation("C15: an issue carries a rule that is written nowhere in src/*.cpp according to the regenerated site table: %s"
+                      % rule_cov["observed_but_not_in_site_table"], "rule_not_in_sites.json", rule_cov, no_input=True)
+
     # ---------------------------------------------------------------- coverage
     hist.update({"service_calls": ev.hist_service, "explained_clause": ev.hist_expl, "documents": kinds,
-                 "import_lib_kinds": libkinds, "ops_sequences": ophist, "calls_with_removeError": ev.removals,
+                 "import_lib_kinds": libkinds, "instance_reuse_histories": seqhist, "ops_sequences": ophist, "calls_with_removeError": ev.removals,
                  "issues_with_MATH_item": ev.math_items, "of_which_component_unreachable": ev.math_unreachable,
                  "cases_ended_by_crash": ev.crashed, "of_which_cyclic_units_documents_(other_properties)": len(other_crashes),
                  "of_which_flattenModel_after_failed_resolveImports_(other_properties)": len(ev.other_crashes),
@@ -768,11 +978,11 @@ def replay(ctx, path):
         open(cf, "w").write(r["case"] + "\n")
         print("impl :", vf.sh([drv, mode, cf])[1].strip())
         print("model:", vf.sh([mdl, cf])[1].strip())
-    elif mode in ("svc", "imp", "trace"):
+    elif mode in ("svc", "imp", "hist", "trace"):
         case = r["case"]
         line = case["line"] if isinstance(case, dict) else case
         open(cf, "w").write(line + "\n")
-        out = vf.sh([drv, "svc" if line.startswith("S ") else "imp", cf])[1].strip()
+        out = vf.sh([drv, {"S": "svc", "I": "imp"}.get(line[:1], "hist"), cf])[1].strip()
         for rec in out.split(" ; "):
             print("impl :", rec)
             p = parse_record(rec)
